@@ -37,6 +37,7 @@ class Harness:
         # without partially initialised contexts (Kani does not apply stubs in playback tests)
         self.playback = kv.get('playback', '0') == '1'
         self.trivial = kv.get('trivial', '0') == '1'   # concrete harness (no symbolic input)
+        self.mem = float(kv.get('mem', '4'))           # measured peak resident memory of its CBMC process, GB
 
 class Module:
     """One harness file == one child module attached to one repo source file."""
